@@ -383,6 +383,10 @@ def run(chk: Check, eng: Engine) -> None:
     chk.rule("R01-c", "repetition counts come from [min, max] (or the repair's overrides), one alternative is expanded, every concatenation element is expanded in order", floor=7)
     chk.rule("R01-d", "repair / crossover / mutation operate under one symbol", floor=4)
     chk.not_decided.append("that budget steering, generators and the parse used by repair really yield derivations (values)")
+    chk.rule("R01-e", "repair and structural operators locate nodes by reference, never by structural equality (an equal sibling is another node)", floor=2)
+    from .c10 import lookup_by_reference
+
+    lookup_by_reference(chk, eng, "R01-e")
     replace_guard(chk, eng, "R01-a", {"path", "symbol", "read_only"})
     rule_b(chk, eng)
     rule_c(chk, eng)
@@ -401,6 +405,7 @@ _N = "src/fandango/language/grammar/nodes/node.py"
 _CMP = "src/fandango/constraints/comparison.py"
 _CX = "src/fandango/evolution/crossover.py"
 MUTANTS = [
+    M("insert-position-by-value", "src/fandango/constraints/repetition_bounds.py", "        index = index_by_reference(tree, self._ending_rep_tree)\n", "        index = tree.children.index(self._ending_rep_tree)\n", "R01-e"),
     M("guard-drops-symbol", _T, "            current_path in path_to_replacement\n            and self.symbol == path_to_replacement[current_path].symbol\n            and not self.read_only\n",
       "            current_path in path_to_replacement\n            and not self.read_only\n", "R01-a"),
     M("guard-or", _T, "            current_path in path_to_replacement\n            and self.symbol == path_to_replacement[current_path].symbol\n            and not self.read_only\n",
